@@ -308,6 +308,29 @@ CHECK_DEADLOCK FALSE
                       "invariants": invs, "states": distinct, "transitions": gen})
 
 
+def design_chainio(out, seclen=3, nsec=2, maxfaults=2, timeout=900):
+    """CfbChainIO: the transfer loops below the stream buffer (read_exact / write_all over Chain::read / write over one backend call
+    per sector piece) against a backend that returns any short count, Interrupted, or a failure (C18 / C12 / C13 design level)."""
+    cfg = (f"SPECIFICATION Spec\nCONSTANTS SecLen = {seclen} NSec = {nsec} MaxFaults = {maxfaults} AdvanceFirst = FALSE MultiSector = FALSE "
+           "LateRemember = FALSE\nINVARIANT ReadExact ReadPrefix WriteExact\nCHECK_DEADLOCK FALSE\n")
+    tag = f"mccio_{out.prop}_{seclen}_{nsec}_{maxfaults}"
+    path = os.path.join(core.SPEC, f"_{tag}.cfg")
+    open(path, "w").write(cfg)
+    try:
+        rc, lines = core.run_tlc("CfbChainIO.tla", os.path.basename(path), {}, os.path.join(core.WORK, f"md_{tag}"), workers=4, timeout=timeout,
+                                 xmx="4g", deque=False)
+    finally:
+        os.remove(path)
+    if not core.tlc_ok(lines):
+        raise core.ToolError("CfbChainIO (design level) failed:\n" + "\n".join(lines[-30:]))
+    gen, distinct = core.tlc_stats(lines)
+    out.add_design(gen, distinct)
+    out.parts.append({"design": f"CfbChainIO SecLen={seclen} NSec={nsec} MaxFaults={maxfaults}: every transfer (position, length) x every splitting of it by the "
+                                "backend (short counts, Interrupted, failure): a completed read delivers exactly the range, the filled prefix is right at every "
+                                "moment, a completed write puts every byte once and allocates exactly the sectors it needs",
+                      "invariants": "ReadExact ReadPrefix WriteExact", "states": distinct, "transitions": gen})
+
+
 class Fidelity:
     """Collects Trace_Phys output: how many images the physical model predicted exactly, and where it did not."""
 
